@@ -7,6 +7,8 @@
 //!   - every generated command is accepted by an empty ConfigState, in order;
 //!   - the resulting state holds exactly the declared clusters, one frontend per declared frontend, one backend per
 //!     declared backend, and a listener for every address a frontend uses.
+//! Constraint-violating neighbours (a listener with an unknown protocol; buffer_size 8192 with certificate-bearing frontends,
+//! i.e. HTTPS listeners advertising h2, declared or implicit) must be refused at load time.
 use std::collections::{BTreeSet, HashSet};
 
 use sozu_command_lib::{config::Config, state::ConfigState};
@@ -16,14 +18,15 @@ struct Front { addr: &'static str, host: &'static str, path: &'static str }
 #[derive(Clone, Debug)]
 struct Cluster { name: String, tcp: bool, fronts: Vec<Front>, backends: usize }
 
-fn toml(listeners: &[(&str, &str)], clusters: &[Cluster]) -> String {
-    let mut s = String::from("command_socket = \"/tmp/verif-c20.sock\"\nworker_count = 1\nmax_connections = 100\nbuffer_size = 16393\ncommand_buffer_size = 16384\nmax_command_buffer_size = 163840\nlog_level = \"error\"\nlog_target = \"stdout\"\n\n");
+fn toml(listeners: &[(&str, &str)], clusters: &[Cluster], buffer_size: usize, tls: bool) -> String {
+    let mut s = format!("command_socket = \"/tmp/verif-c20.sock\"\nworker_count = 1\nmax_connections = 100\nbuffer_size = {buffer_size}\ncommand_buffer_size = 16384\nmax_command_buffer_size = 163840\nlog_level = \"error\"\nlog_target = \"stdout\"\n\n");
     for (addr, proto) in listeners { s += &format!("[[listeners]]\naddress = \"{addr}\"\nprotocol = \"{proto}\"\n\n"); }
     s += "[clusters]\n";
     for c in clusters {
         s += &format!("[clusters.{}]\nprotocol = \"{}\"\nfrontends = [\n", c.name, if c.tcp { "tcp" } else { "http" });
         for f in &c.fronts {
             if c.tcp { s += &format!("  {{ address = \"{}\" }},\n", f.addr); }
+            else if tls { s += &format!("  {{ address = \"{}\", hostname = \"{}\", path = \"{}\", certificate = \"/repo/lib/assets/certificate.pem\", key = \"/repo/lib/assets/key.pem\", certificate_chain = \"/repo/lib/assets/certificate_chain.pem\" }},\n", f.addr, f.host, f.path); }
             else { s += &format!("  {{ address = \"{}\", hostname = \"{}\", path = \"{}\" }},\n", f.addr, f.host, f.path); }
         }
         s += "]\nbackends = [\n";
@@ -33,13 +36,17 @@ fn toml(listeners: &[(&str, &str)], clusters: &[Cluster]) -> String {
     s
 }
 
-fn check(listeners: &[(&str, &str)], clusters: &[Cluster]) -> Result<bool, (String, String)> {
-    let text = toml(listeners, clusters);
+fn check(listeners: &[(&str, &str)], clusters: &[Cluster], buffer_size: usize, tls: bool) -> Result<bool, (String, String)> {
+    let text = toml(listeners, clusters, buffer_size, tls);
     let path = std::env::temp_dir().join(format!("verif-c20-{}.toml", std::process::id()));
     std::fs::write(&path, &text).map_err(|e| (text.clone(), format!("cannot write temp file: {e}")))?;
     let loaded = Config::load_from_path(path.to_str().unwrap());
     let _ = std::fs::remove_file(&path);
-    let config = match loaded { Ok(c) => c, Err(_) => return Ok(false) };   // a refused file is not this check's business
+    let config = match loaded { Ok(c) => c, Err(_) => return Ok(false) };   // a refused file produces nothing
+    // documented constraints: a file that violates one must have been refused
+    if listeners.iter().any(|l| !["http", "https", "tcp", "udp"].contains(&l.1)) { return Err((text, "a listener with an unknown protocol was accepted".to_string())); }
+    let h2: Vec<String> = config.https_listeners.iter().filter(|l| l.alpn_protocols.iter().any(|p| p == "h2")).map(|l| format!("{:?}", l.address)).collect();
+    if !h2.is_empty() && (config.buffer_size as usize) < 16393 { return Err((text, format!("the loader accepted the file: buffer_size = {} with HTTP/2 advertised on listeners {h2:?} (documented minimum 16393: the H2 mux cannot hold a full frame)", config.buffer_size))); }
     // one listener per address
     let mut seen = HashSet::new();
     let all: Vec<String> = config.http_listeners.iter().map(|l| format!("{:?}", l.address)).chain(config.https_listeners.iter().map(|l| format!("{:?}", l.address)))
@@ -69,7 +76,7 @@ fn main() {
     let thorough = std::env::args().nth(1).map(|s| s == "thorough").unwrap_or(false);
     let addrs = ["127.0.0.1:8080", "127.0.0.1:8081", "127.0.0.1:8082"];
     let hosts = ["a.example", "b.example"];
-    let listener_sets: Vec<Vec<(&str, &str)>> = vec![vec![], vec![("127.0.0.1:8080", "http")], vec![("127.0.0.1:8080", "http"), ("127.0.0.1:8082", "tcp")]];
+    let listener_sets: Vec<Vec<(&str, &str)>> = vec![vec![], vec![("127.0.0.1:8080", "http")], vec![("127.0.0.1:8080", "http"), ("127.0.0.1:8082", "tcp")], vec![("127.0.0.1:8443", "https")], vec![("127.0.0.1:8083", "bogus")]];
     // frontends of one cluster: every non-empty list of up to `maxf` (addr, host) pairs, paths distinguish same host
     let maxf = if thorough { 3 } else { 2 };
     let mut front_lists: Vec<Vec<Front>> = vec![];
@@ -98,7 +105,9 @@ fn main() {
                 }
                 for cs in variants {
                     files += 1;
-                    match check(ls, &cs) {
+                    for (buffer_size, tls) in [(16393usize, false), (16393, true), (8192, true), (8192, false)] {
+                    if (buffer_size != 16393 || tls) && (cs.len() > 1 || tcp1) { continue; }
+                    match check(ls, &cs, buffer_size, tls) {
                         Ok(true) => loaded += 1,
                         Ok(false) => {}
                         Err((text, obs)) => {
@@ -107,10 +116,11 @@ fn main() {
                             if failures.len() >= 3 { break 'outer; }
                         }
                     }
+                    }
                 }
             }
         }
     }
     let fjson: Vec<String> = failures.iter().map(|(i, o)| format!("{{\"input\": {i:?}, \"observed\": {o:?}}}")).collect();
-    println!("{{\"bound\": \"a generated family of configuration files: 3 declared-listener sets x http/tcp x frontend lists of up to {maxf} frontends over 3 addresses and 2 hostnames (declared and undeclared addresses, shared within and across clusters) x 1 or 2 clusters\", \"states\": {files}, \"pairs\": {files}, \"nontrivial_pairs\": {loaded}, \"failures\": [{}]}}", fjson.join(", "));
+    println!("{{\"bound\": \"a generated family of configuration files: 5 declared-listener sets (incl. an https one and one with an unknown protocol) x plain / certificate-bearing frontends x buffer_size 16393 / 8192 x http/tcp x frontend lists of up to {maxf} frontends over 3 addresses and 2 hostnames (declared and undeclared addresses, shared within and across clusters) x 1 or 2 clusters\", \"states\": {files}, \"pairs\": {files}, \"nontrivial_pairs\": {loaded}, \"failures\": [{}]}}", fjson.join(", "));
 }
